@@ -11,8 +11,8 @@
 (* After every event the rows of transparent_received_outputs |x| transactions |x|               *)
 (* transparent_received_output_spends and the unshielded balances get_wallet_summary reports     *)
 (* (ConfirmationsPolicy::MIN) must equal the state / the ledger Coins.tla computes.              *)
-(* Switches (IOEnv, must be set): CHECK_COINS = "1"; CHECK_KNOWN_SPENDERS = "1" adds the         *)
-(* property-level law the conflicting-spender caveat breaks.  EXPLAIN = "1" prints the model's expectation *)
+(* Switches (IOEnv, must be set): CHECK_COINS = "1"; COIN_KNOWN_SPENDERS = "off" | "excuse" |    *)
+(* "strict" (see KnownSpendersLaw).  EXPLAIN = "1" prints the model's expectation                *)
 (* for a disagreeing projection (line "EXPLAINC") and lets the trace continue.                    *)
 EXTENDS Trace_Wallet
 
@@ -25,15 +25,28 @@ ctvars == << tvars, cs >>
 LoggedCoinRow(r) == [c |-> r.c, v |-> r.v, acct |-> r.acct, t |-> r.t, mined |-> r.mined, minobs |-> r.minobs, exp |-> r.exp,
                      sp |-> { << s[1], s[2], s[3], s[4] >> : s \in SeqToSet(r.sp) }]
 
+\* KnownMinedSpenderWins (the property, not the transcription): a coin is not counted while a transaction the wallet
+\* stored in full, and knows to be mined at or below the tip, spends it.  Spend links make this true by construction;
+\* the remaining case is a spender that was remembered before its coin arrived and was never linked.  The pinned wallet
+\* links only one of several conflicting remembered spenders: known finding C01-conflicting-spenders-one-linked,
+\* excused (and printed) only in that case and only while the check passes COIN_KNOWN_SPENDERS = "excuse".
+\* COIN_KNOWN_SPENDERS: "off" (law not evaluated) | "excuse" | "strict".
+KnownSpendersLaw ==
+    (IOEnv.COIN_KNOWN_SPENDERS # "off") =>
+       \A k \in cs'.smap :
+          (/\ k[2] \in DOMAIN cs'.coins /\ cs'.ttx[k[1]].mined # -1 /\ cs'.ttx[k[1]].mined < tip' + 1
+           /\ C!Counted(cs', k[2], tip' + 1))
+          => /\ IOEnv.COIN_KNOWN_SPENDERS = "excuse"
+             /\ Cardinality(C!Cands(cs', k[2])) >= 2
+             /\ PrintT(<< "KNOWN", "C01-conflicting-spenders-one-linked", k[2], k[1] >>)
+
 \* CoinLedgerLaw (balances) and the row-level equality, against the primed state
 CoinsAgree(cp) ==
     \/ ~cp.chk
     \/ IOEnv.CHECK_COINS # "1"
     \/ /\ { LoggedCoinRow(cp.rows[i]) : i \in DOMAIN cp.rows } = { C!RowOf(cs', c) : c \in DOMAIN cs'.coins }
        /\ Len(cp.rows) = Cardinality(DOMAIN cs'.coins)
-       /\ (IOEnv.CHECK_KNOWN_SPENDERS = "1") =>     \* optional, see MC_Coins!KnownMinedSpenderWins: a coin is not counted while a
-             \A k \in cs'.smap :                      \* transaction the wallet stored in full, mined at or below the tip, spends it
-                (k[2] \in DOMAIN cs'.coins /\ cs'.ttx[k[1]].mined # -1 /\ cs'.ttx[k[1]].mined < tip' + 1) => ~C!Counted(cs', k[2], tip' + 1)
+       /\ KnownSpendersLaw
        /\ cp.balp =>                          \* no summary, no claim (as for the shielded pools)
              \A a \in 1..2 :
                 /\ << cp.bal[a][1], cp.bal[a][2] >> \in { C!LedgerT(cs', a, tip' + 1), C!LedgerTGrouped(cs', a, tip' + 1) }
